@@ -1,0 +1,22 @@
+//go:build verif
+
+package gogu
+
+// Contracts for the deductive verifier in /verif (gvc). Comment-only; compiled only with -tags verif.
+
+//@ func gogu.IndexOf
+//@   property C13 C16
+//@   ensures result >= 0 ==> result < len(s) && s[result] == val
+//@   ensures result >= 0 ==> forall j int :: 0 <= j && j < result ==> s[j] != val
+//@   ensures result < 0 ==> result == -1 && forall j int :: 0 <= j && j < len(s) ==> s[j] != val
+//@ loop 1
+//@   invariant forall j int :: 0 <= j && j < k ==> s[j] != val
+
+//@ func gogu.LastIndexOf
+//@   property C13 C16
+//@   ensures result >= 0 ==> result < len(s) && s[result] == val
+//@   ensures result >= 0 ==> forall j int :: result < j && j < len(s) ==> s[j] != val
+//@   ensures result < 0 ==> result == -1 && forall j int :: 0 <= j && j < len(s) ==> s[j] != val
+//@ loop 1
+//@   invariant -1 <= i && i < len(s)
+//@   invariant forall j int :: i < j && j < len(s) ==> s[j] != val
